@@ -658,6 +658,11 @@ class TypeEnv:
             if n == 'dict':
                 return ('dict', UNK, UNK)
             if n == 'tuple':
+                if e.args:
+                    # tuple(xs): a frozen snapshot of a homogeneous collection - iterated like the list it copies
+                    t = self.type_of(e.args[0])
+                    if t[0] in ('list', 'set'):
+                        return ('list', t[1])
                 return ('tuple', ())
             if n in ('str', 'repr'):
                 return ('str',)
